@@ -1,6 +1,6 @@
 (* C16 -- lag subnetworks partition the edges; companion matrix has VAR block form. *)
 From Coq Require Import List Arith ZArith QArith Permutation.
-From CE Require Import Model.LagNet Proofs.LagNetProofs.
+From CE Require Import Model.LagNet Proofs.LagNetProofs Proofs.LagNetExtra.
 Local Open Scope nat_scope.
 
 Theorem C16_subnetwork_has_exactly_the_lag_k_edges : forall k es e, In e (subnet k es) <-> In e es /\ lag e = k.
@@ -34,3 +34,23 @@ Print Assumptions C16_companion_empty_without_positive_lag.
 Theorem C16_lag0_edges_do_not_enter : forall n e es r c, lag e = 0 -> entry_spec n (e :: es) r c = entry_spec n es r c.
 Proof. exact lag0_ignored. Qed.
 Print Assumptions C16_lag0_edges_do_not_enter.
+
+(* consequences of the partition, for every edge list: the edge counts of the subnetworks add up
+   to the edge count of the network; taking the lag-k subnetwork twice changes nothing and the
+   lag-k1 subnetwork of a lag-k2 subnetwork is empty; unique edges stay unique. *)
+Theorem C16_subnetwork_edge_counts_add_up : forall es K, (forall e, In e es -> lag e <= K) ->
+  length es = fold_right (fun k s => length (subnet k es) + s) 0 (seq 0 (S K)).
+Proof. exact subnet_counts_add_up. Qed.
+Print Assumptions C16_subnetwork_edge_counts_add_up.
+
+Theorem C16_subnetwork_idempotent : forall k es, subnet k (subnet k es) = subnet k es.
+Proof. exact subnet_idempotent. Qed.
+Print Assumptions C16_subnetwork_idempotent.
+
+Theorem C16_subnetwork_of_other_lag_is_empty : forall k1 k2 es, k1 <> k2 -> subnet k1 (subnet k2 es) = nil.
+Proof. exact subnet_of_other_lag_empty. Qed.
+Print Assumptions C16_subnetwork_of_other_lag_is_empty.
+
+Theorem C16_subnetwork_keeps_edges_unique : forall k es, NoDup es -> NoDup (subnet k es).
+Proof. exact subnet_NoDup. Qed.
+Print Assumptions C16_subnetwork_keeps_edges_unique.
